@@ -132,6 +132,24 @@ func encodeKV(m map[string]tengo.Object, seen map[tengo.Object]bool, depth int) 
 	return out
 }
 
+// ErrHost is the Go error returned by the host function "hostfail".
+var ErrHost = fmt.Errorf("host function failed")
+
+func hostFunction(name string) tengo.Object {
+	switch name {
+	case "hostfail":
+		return &tengo.UserFunction{Name: name, Value: func(args ...tengo.Object) (tengo.Object, error) { return nil, ErrHost }}
+	case "hostpanic":
+		return &tengo.UserFunction{Name: name, Value: func(args ...tengo.Object) (tengo.Object, error) { panic("host function panicked") }}
+	}
+	return &tengo.UserFunction{Name: name, Value: func(args ...tengo.Object) (tengo.Object, error) {
+		if len(args) > 0 {
+			return args[0], nil
+		}
+		return nil, nil
+	}}
+}
+
 func toInt64(x interface{}) int64 {
 	switch x := x.(type) {
 	case float64:
@@ -227,6 +245,9 @@ func decodeValue(x interface{}) (tengo.Object, error) {
 			return nil, err
 		}
 		return &tengo.Error{Value: o}, nil
+	case "hostfn":
+		name, _ := m["name"].(string)
+		return hostFunction(name), nil
 	case "time":
 		if z, _ := m["zero"].(bool); z {
 			return &tengo.Time{Value: time.Time{}}, nil
